@@ -835,7 +835,9 @@ def headers_laws(req, env, step, op, who):
     if isinstance(h, Err) or isinstance(names, Err) or not all(isinstance(n, str) for n in names):
         return None
     where = "step %d %r, %s: " % (step, op, who)
-    lows = [n.lower() for n in names]
+    # (case-insensitively in the sense the mapping itself uses, str.upper: the Kelvin sign U+212A lower-cases to "k" but
+    #  is its own upper case, so "K-\u212a" and "k-k" are two headers for EnvironHeaders; header names are ASCII tokens)
+    lows = [n.upper() for n in names]
     if len(set(lows)) != len(lows):
         return ("headers:name-listed-twice", where + "request.headers lists %r for environ keys %r" % (names, header_like_keys(env)))
     if catch(len, h) != len(names) or catch(lambda: list(iter(h))) != names:
@@ -1021,6 +1023,9 @@ def check_write(W, step, op, before, ret):
             return ("write-lands:del-not-removed", "step %d %r: %s still holds %r" % (step, op, key, env[key]))
     if t == "hdr" and op[3][0] in ("clear", "assign", "assign_pairs", "assign_headers"):
         want = set() if op[3][0] == "clear" else {header_key(a) for a, _ in op[3][1]}
+        if op[3][0] == "assign_headers":     # (the other request's environ is built with every name under HTTP_*)
+            want = {k for k in ("HTTP_" + a.upper().replace("-", "_") for a, _ in op[3][1]) if len(k) > 5}
+        want.discard("HTTP_")      # (the empty header name: stored under "HTTP_", which stands for no header)
         got = set(header_like_keys(env))
         if got != want:
             return ("write-lands:headers-left-after-replacing", "step %d %r: the environ still/only carries header keys %r, the new "
